@@ -1,1 +1,1 @@
-import RodbusModel.Model.Basic
+import Driver.Points
